@@ -239,7 +239,8 @@ func (rt *runtime) convertNumeric(v Value, t reflect.Type) reflect.Value {
 	val := reflect.ValueOf(v.export())
 
 	if val.Kind() == t.Kind() {
-		return val
+		// the same kind, possibly a named type (time.Duration, type Celsius float64)
+		return val.Convert(t)
 	}
 
 	if val.Kind() == reflect.Interface {
@@ -251,7 +252,7 @@ func (rt *runtime) convertNumeric(v Value, t reflect.Type) reflect.Value {
 		f64 := val.Float()
 		switch t.Kind() {
 		case reflect.Float64:
-			return reflect.ValueOf(f64)
+			return reflect.ValueOf(f64).Convert(t)
 		case reflect.Float32:
 			if reflect.Zero(t).OverflowFloat(f64) {
 				panic(rt.panicRangeError("converting float64 to float32 would overflow"))
@@ -441,13 +442,12 @@ func (rt *runtime) convertCallParameter(v Value, t reflect.Type) (reflect.Value,
 
 	switch tk {
 	case reflect.Bool:
-		return reflect.ValueOf(v.bool()), nil
+		return reflect.ValueOf(v.bool()).Convert(t), nil
 	case reflect.String:
 		switch v.kind {
-		case valueString:
+		case valueString, valueNumber:
+			// a Number arrives as its ES5 ToString ("Infinity", "1e-7"), not as Go's %v
 			return reflect.ValueOf(v.string()).Convert(t), nil
-		case valueNumber:
-			return reflect.ValueOf(fmt.Sprintf("%v", v.value)).Convert(t), nil
 		}
 	case reflect.Int, reflect.Int8, reflect.Int16, reflect.Int32, reflect.Int64, reflect.Uint, reflect.Uint8, reflect.Uint16, reflect.Uint32, reflect.Uint64, reflect.Float32, reflect.Float64:
 		if v.kind == valueNumber {
